@@ -164,6 +164,8 @@ def check(prop, tier, seed):
                     violations.append((j, r, ob, tag))
             else:
                 unknowns.append((j, ob))
+                if not j.bounded:
+                    job_ob -= 1      # left UNKNOWN by cbmc: reported separately (undecided unless the job already fails), never counted
         for c in j.expect_fail_canary:
             st = canaries_seen.get(c)
             if st != 'FAILURE':
